@@ -120,6 +120,11 @@ CHECKS = {
          "Sampling of the product space (120 configurations x 60 requests in the quick tier); two recorded known findings (stateless CSRF tokens; wallet-recover's API set differs from the documentation); CORS pre-flight not exercised.",
          "TLA+ decision function over a documented route table, evaluated by TLC on recorded requests to the real server mux",
          "DESIGN.md 4.7, 5 C27, 9"),
+ "C28": ("apicrash", "exploration",
+         "HttpRecords.tla: every request gets a complete HTTP response with a documented status - not a dropped connection (what net/http does after a handler panic), not a hang, and the process survives. A real node is composed in the harness process as skycoin.go does (wallet.NewService, visor.New on a bolt file with a chain and a pending transaction or still at the genesis block, daemon.New with networking disabled, kvstorage, api.NewGateway, api.Create on 127.0.0.1) and is sent requests over TCP: documented routes x methods, the endpoint's documented parameters plus random extras, values taken from the node's state (confirmed / pending / spent / unknown ids, wallet ids, encoded transactions spending unspent / spent / unknown outputs, unsigned) or hostile (empty, huge, negative, non-numeric, wrong JSON types, cut JSON), as query, form or JSON; plus probes with a count of 2^63-1 addresses. TLC checks every record; a death of the process is attributed to the last request sent.",
+         "Random exploration of an unbounded input space; one recorded known finding (unbounded scan count at wallet creation); CSRF/header checks off and all API sets on (C27 decides the gate).",
+         "TLA+ predicate evaluated by TLC on recorded requests to a real in-process node over HTTP",
+         "DESIGN.md 5 C28, 9"),
  "C29": ("fn", "model_checking",
          "Fn.tla defines page bounds over exact naturals; MCPaging walks pages 1..N+2 for every list length <= 25 and page size <= 7 and checks that they concatenate to the list exactly once, that N is the reported count and later pages are empty. The real PageIndex.Cal and txnHashesContainer.Pagination (de-duplicated lists, page numbers up to 2^64-1 including wrap-around values) are recorded and TLC checks every record against the same definitions.",
          "The filter/sort steps before paging are not modelled (ordering and de-duplication are taken from the container); TLC/SANY/Json trusted.",
